@@ -14,10 +14,10 @@ META = {
   note="Numeric arguments are chosen so that arithmetic is exact and order-independent (no float rounding); comparison is typed (numbers by value, set:/sum: tag stripped) because sequential and merge paths format floats differently. Files go through an uncompressed local dstore.",
   technique="rapid random generation, differential (sequential vs squashed) + reference model"),
  "C03": dict(
-  text="Stateful random testing of the store under block/undo/redo/final histories (ApplyDeltasReverse with the block's own deltas, blocks re-executed after being undone), content and size compared with a model folded over the current chain after every step.",
+  text="Store level: stateful random testing of block/undo/redo/final histories (ApplyDeltasReverse with the block's own deltas, blocks re-executed after being undone), content and size compared with a model after every step. End to end: random fork trees with arbitrary arrival order and finality progress turned into steps by the real fork resolver, fed to the real tier1 pipeline in both modes; stores compared with a fork-free execution of the canonical chain after every step and a simulated client checked for the three client-side clauses of the statement.",
   design_ref="DESIGN.md section 3, C03",
-  note="Store level only so far (the end-to-end fork-tree part through the real forkable is not built yet in this commit).",
-  technique="rapid stateful (history machine) against a reference model"),
+  note="End to end, generated fork trees go through the real bstream/forkable (flip-flops re-apply the same block ids) into a dev-mode and a production-mode request whose start equals the hand-off; after every new/undo step the stores are compared (content typed, size exact) with a fork-free execution of the current canonical chain, and a simulated client checks the undo signals and converges on the canonical outputs. Forks directly at the initial LIB are not generated (the resolver, set up with an inclusive initial LIB as in the repository's fork test, reports a nil junction there).",
+  technique="rapid stateful history machine (store level) + rapid-generated fork histories through the real fork resolver, differential against fork-free execution"),
  "C04": dict(
   text="Random end-to-end requests on generated programs judged by a monitor over the response sequence (session first, every block in range, strictly increasing, no duplicate or gap across the hand-off, every block from the hand-off on and every block in dev mode delivered, cursor designates the message's block) and by a metamorphic resume relation: a new request started from the cursor of a delivered message (sampled positions in quick, every position in thorough; same or empty cache) must yield exactly the messages that followed; injected deterministic failures must end the stream with an error and nothing after it.",
   design_ref="DESIGN.md section 3, C04",
